@@ -37,6 +37,8 @@ var c16dVocabulary = []string{
 	"offset-up", "offset-down", "change-header(h)", "toggle-header", "toggle-input",
 	// commands: what gets started must be the same either way (a local listener may run them)
 	"preview(PVD {n})", "change-preview(PVE {n})", "execute-silent(EXD {n})",
+	// the preview window opened and closed explicitly (bound lists run these first - so must posted ones)
+	"show-preview", "hide-preview", "hide-preview",
 }
 
 func genC16dPlan(r *zsim.Rng) *c16dPlan {
@@ -101,8 +103,8 @@ func c16dSnapshot(r *sysRun) c16dSnap {
 		}
 	}
 	pvCmp := len(st.Matches) > 0 && t.hasPreviewWindow()
-	return c16dSnap{ok: true, state: fmt.Sprintf("query=%q cx=%d selected=%v matches=%v sort=%v multi=%d paused=%v prompt=%q header_visible=%v input_hidden=%v commands_started=%q",
-		st.Query, st.Cx, st.Selected, st.Matches, st.Sort, t.multi, st.Paused, t.promptString, t.headerVisible, t.inputless, cmds), pv: lastPV, pvCmp: pvCmp, cy: st.Cy}
+	return c16dSnap{ok: true, state: fmt.Sprintf("query=%q cx=%d selected=%v matches=%v sort=%v multi=%d paused=%v prompt=%q header_visible=%v input_hidden=%v preview_window=%v commands_started=%q",
+		st.Query, st.Cx, st.Selected, st.Matches, st.Sort, t.multi, st.Paused, t.promptString, t.headerVisible, t.inputless, t.hasPreviewWindow(), cmds), pv: lastPV, pvCmp: pvCmp, cy: st.Cy}
 }
 
 // c16dSession runs one session; deliver(i) hands over step i and returns false if it could not.
